@@ -24,6 +24,8 @@ def run(chk, replay=None):
     cases += collide
     from vlib import gen as _gen
     cases += _gen.collide_lines(streams.vocab())     # every operator-argument name as a user field name, systematically
+    cases += streams.keyword_lines()                 # every bare word of the tables as a string VALUE
+    cases += streams.deep_lines()                    # literals 50 .. 300 levels deep
     streams.note_distribution(chk, cases)
     cfgs = streams.value_cfgs(rng, 8 if th else 3) + [Cfg(nums=True, bools=True, eager=['mydb', 'app_db', 'shop', 'd']), Cfg(encrypt=True, key=streams.KEY, nums=True, ips=True),
                                                     Cfg(repl='', nss=True), Cfg(eager=[''] if False else ['déb'], ips=True)]
